@@ -81,7 +81,8 @@ def run(ctx):
         for r in reads:
             n_list += 1
             v, msg = decided.get(r.id, ('violation', 'position %s of an unchecked read is neither a search result nor a caller\'s handle' % show(strip(r.args[1]), 3)))
-            ctx.add(RULE, fn, 'list-read(%s)' % show(strip(r.args[1]), 2)[:40], v, msg, props, span_line(r, fn.line))
+            from rules.panicsite import sig_operand
+            ctx.add(RULE, fn, 'list-read(%s)' % sig_operand(prog, fn, r.args[1]), v, msg, props, span_line(r, fn.line))
     # ---- segment tree ---------------------------------------------------------------------------
     for fn in prog.fns.values():
         if fn.family != 'seg' or fn.is_closure:
